@@ -12,10 +12,15 @@ RNorm(q) == LET g == GCD(Abs(q[1]), q[2]) IN
 R(n)      == <<n, 1>>
 Zero      == <<0, 1>>
 One       == <<1, 1>>
-RAdd(a, b) == RNorm(<<a[1] * b[2] + b[1] * a[2], a[2] * b[2]>>)
+\* sums over the least common denominator and products after cross-cancellation keep intermediate values small
+\* (TLC integers are 32-bit and overflow is an error)
+RAdd(a, b) == LET g == GCD(a[2], b[2]) IN RNorm(<<a[1] * (b[2] \div g) + b[1] * (a[2] \div g), (a[2] \div g) * b[2]>>)
 RNeg(a)    == <<-a[1], a[2]>>
 RSub(a, b) == RAdd(a, RNeg(b))
-RMul(a, b) == RNorm(<<a[1] * b[1], a[2] * b[2]>>)
+RMul(a, b) == IF a[1] = 0 \/ b[1] = 0 THEN <<0, 1>>
+              ELSE LET g1 == GCD(Abs(a[1]), b[2])
+                       g2 == GCD(Abs(b[1]), a[2])
+                   IN RNorm(<<(a[1] \div g1) * (b[1] \div g2), (a[2] \div g2) * (b[2] \div g1)>>)
 RInv(a)    == IF a[1] > 0 THEN <<a[2], a[1]>> ELSE <<-a[2], -a[1]>>
 RDiv(a, b) == RMul(a, RInv(b))
 RLt(a, b)  == a[1] * b[2] < b[1] * a[2]
